@@ -22,10 +22,12 @@ def probe(tag, value):
 
 
 def pre_pos(x):
+    """The argument must be positive (python -OO strips this text: nothing the library does may depend on it)."""
     return probe("pre", x > 0)
 
 
 def post_pos(result):
+    """The result must be positive."""
     return probe("post", result > 0)
 
 
@@ -34,10 +36,12 @@ def post_old(result, OLD):
 
 
 def snap_x(x):
+    """The argument before the call."""
     return probe("snap", x)
 
 
 def inv_pos(self):
+    """The value stays positive."""
     return probe("inv", self.v > 0)
 
 
